@@ -63,6 +63,7 @@ type funcVC struct {
 	nSends int
 	localSorts map[string]string
 	callCount map[string]int
+	siteCount map[string]int
 	opaqueModule []string
 	stack []*ssa.Function
 	retResults [][]string
